@@ -6,7 +6,7 @@ CONSTANTS
   NSeeds = 35
   MaxPos = 30
   ReplTokens <- Repl
-  NScSeeds = 12
+  NScSeeds = 14
   Mode = "edits"
 INVARIANT Emit
 CHECK_DEADLOCK FALSE
